@@ -843,7 +843,7 @@ package engine
 //@   ensures result == simplified(e, t)
 
 //@ func compileClause
-//@   property C10 C09
+//@   property C10 C09 C03
 //@   nosafety
 //@   modifies nothing
 //@   trusted-frame
@@ -901,7 +901,7 @@ package engine
 
 //@ -- compile: the stored clause term is the given term with the bindings in force applied (C10)
 //@ func compile
-//@   property C10
+//@   property C10 C03
 //@   nosafety
 //@   modifies nothing
 //@   trusted-frame
@@ -1676,7 +1676,7 @@ package engine
 //@   ensures[length] err == nil ==> len(result0) == n
 
 //@ ---------------------------------------------------------------- package-level state shared by all interpreters (C14)
-//@ global atomTable guarded-by
+//@ global atomTable guarded-by also C02
 //@ global varCounter atomic except lastVariable
 //@ global write-through-exempt (*operators).init writes its receiver only when the table is nil (lazy initialisation, see its C18 contract); a table that exists is not written
 //@ global memFree test-hook
@@ -1851,7 +1851,7 @@ package engine
 
 //@ -- Env.set (sort/2, setof/3): sorts the terms given ascending by Term.Compare in its environment, keeps a term only when it differs from the one kept before it
 //@ func (*Env).set
-//@   property C08
+//@   property C08 C11
 //@   nosafety
 //@   frozen e, ts
 //@   bind lst = List#1
@@ -1865,7 +1865,7 @@ package engine
 //@   ensures[the-list-of-the-terms-kept] called(lst) && result == lst
 
 //@ func (*Env).set$1
-//@   property C08
+//@   property C08 C11
 //@   nosafety
 //@   ensures[ascending-in-the-standard-order-under-this-environment] result <==> Term.Compare(ts[param(0)], ts[param(1)], e) == -1
 
@@ -2049,7 +2049,7 @@ package engine
 //@ ---------------------------------------------------------------- loading a text (C20)
 
 //@ func (*text).flush
-//@   property C20
+//@   property C20 C10
 //@   requires t != nil && t.clauses != nil
 //@   requires[procedures-exist] forall q procedureIndicator :: has(t.clauses, q) ==> t.clauses[q] != nil
 //@   requires[the-buffer-has-its-own-array] forall q procedureIndicator :: has(t.clauses, q) ==> backing(t.clauses[q].clauses) != backing(t.buf) || backing(t.buf) == nil
